@@ -1013,6 +1013,11 @@ func checkSignature(algo SignatureAlgorithm, signed, signature []byte, publicKey
 		if dsaSig.R.Sign() <= 0 || dsaSig.S.Sign() <= 0 {
 			return errors.New("x509: DSA signature contained zero or negative values")
 		}
+		// encoding/asn1 tolerates further elements inside the SEQUENCE; the
+		// signature value must be exactly the DER encoding of (r, s).
+		if der, err := asn1.Marshal(*dsaSig); err != nil || !bytes.Equal(der, signature) {
+			return errors.New("x509: DSA signature is not the DER encoding of two integers")
+		}
 		if !dsa.Verify(pub, fnHash(), dsaSig.R, dsaSig.S) {
 			return errors.New("x509: DSA verification failure")
 		}
@@ -1026,6 +1031,9 @@ func checkSignature(algo SignatureAlgorithm, signed, signature []byte, publicKey
 		}
 		if ecdsaSig.R.Sign() <= 0 || ecdsaSig.S.Sign() <= 0 {
 			return errors.New("x509: ECDSA signature contained zero or negative values")
+		}
+		if der, err := asn1.Marshal(*ecdsaSig); err != nil || !bytes.Equal(der, signature) {
+			return errors.New("x509: ECDSA signature is not the DER encoding of two integers")
 		}
 		switch pub.Curve {
 		case sm2.P256Sm2():
